@@ -103,6 +103,12 @@ of_linear_binary_code_finish_decoding_with_ml (of_linear_binary_code_cb_t	*ofcb)
 
 	OF_ENTER_FUNCTION
 	OF_TRACE_LVL (1, ("ML decoding on parity check matrix\n"))
+	if (of_is_decoding_complete ((of_session_t*)ofcb))
+	{
+		/* nothing left to decode: all source symbols are already available */
+		OF_EXIT_FUNCTION
+		return OF_STATUS_OK;
+	}
 	/*
 	 *  Step 0: Matrix simplification, where we remove known symbols from the system, adding their value
 	 * to corresponding constant terms.
